@@ -10,7 +10,7 @@ ID = "C13"
 LEVEL = "other"
 LEAN_MODULES = ["Sonic.Props.C13", "Sonic.Props.C12"]
 REQUIRED_THEOREMS = ["Sonic.Props.C13." + n for n in ["C13_ledger", "C13_step", "C13_balanced", "C13_copy_independent", "C13_erase", "C13_complete",
-                                                         "C13_foreign_ref_note"]]
+                                                         "C13_foreign_ref_note", "C13_docbuf_inv", "C13_docbuf_no_leak", "C13_docbuf_schema_keeps"]]
 CONFIGS = [("avx2", "san"), ("avx2", "prod"), ("sse", "san")]
 CONFIGS_THOROUGH = CONFIGS + [("dyn", "san"), ("sse", "prod")]
 ENV = {"MALLOC_PERTURB_": "243"}
@@ -85,10 +85,39 @@ def generate(rng, tier):
                  (b'{"k":[1,2]}', b'{"k":["now","strings"]}'), (b'{"k":null}', b'{"k":{"new":"object","with":["strings"]}}')]:
         for alloc in ("track", "simple", "pool"):
             cases.append({"lines": [f"schema-copy {alloc} " + G.hx(e) + " " + G.hx(t)], "cls": "schema-copy", "kind": "schema", "ntexts": 1, "nontrivial": True})
+    # the documents' own text buffers (str_, the chain of schema_str_ buffers) through every history of Parse / ParseSchema / Swap / move
+    # assignment / destruction over two documents, with values that own no node storage: the ledger's live-block count after EVERY
+    # operation is compared with the model Sonic.Model.DocBuf (theorems C13_docbuf_*), and at the end nothing may be live
+    texts = [b"1", b"true", b"null", b"-2.5e3", b'"s"', b'"a longer string with \\n an escape and \\u00e9"', b'""', b" 7 ", b"x", b'"ab', b"tru", b"1.", b"",
+             b"1 2", b'"a" x', b'"' + b"y" * 100 + b'"']
+    for _ in range(400 if quick else 40000):
+        ops = []
+        for _ in range(rng.choice([3, 6, 10, 25])):
+            r = rng.random()
+            if r < 0.3:
+                ops.append("p" + rng.choice("ab") + ":" + (rng.choice(texts).hex()))
+            elif r < 0.7:
+                # (a string value written by ParseSchema is an owned copy, i.e. node storage: not in these histories)
+                ops.append("s" + rng.choice("ab") + ":" + (rng.choice([t for t in texts if b'"' not in t]).hex()))
+            else:
+                ops.append(rng.choice(["w", "w", "mab", "mba", "da", "db"]))
+        cases.append({"lines": ["docbuf " + " ".join(ops)], "cls": "docbuf", "kind": "docbuf", "nontrivial": len(ops) >= 6})
     return cases
 
 
 def judge(case, mo, io, cfg):
+    if case.get("kind") == "docbuf":
+        if "CRASH" in io[0]:
+            return ("violation", f"crash / sanitizer report in a document-buffer history: {io[0][:220]} for `{case['lines'][0][:200]}`")
+        if io[0] == "bad-op" or mo[0] == "bad-op":
+            return None if io[0] == mo[0] else ("drift", f"model={mo[0][:80]} impl={io[0][:80]}")
+        f = dict(p.split("=", 1) for p in io[0].split() if "=" in p)
+        if f.get("faults") != "0" or f.get("final") != "0":
+            return ("violation", f"text buffers not released exactly once: faults={f.get('faults')} still live after both documents were destroyed={f.get('final')} "
+                                 f"{f.get('problems', '')} for `{case['lines'][0][:200]}`")
+        if io[0] != mo[0]:
+            return ("drift", f"live text buffers differ from the model: model={mo[0][:120]} impl={io[0][:120]} for `{case['lines'][0][:160]}`")
+        return None
     if case.get("kind") == "parse":
         return c02.judge(case, mo, io, cfg)
     if case.get("kind") == "schema":
